@@ -205,4 +205,40 @@ theorem stdRadicandPx_eq_model (w : Nat) (f : Int → Int → ℚ) (i j : Int) (
   rw [meanRasterPx_eq_model w _ i j hi hj, meanRasterPx_eq_model w f i j hi hj]
   exact C02KernelsMcCost.stdRadicand_eq_model w f i j
 
+/-! ## (3) shift_right_img -/
+
+/-- the number of columns kept by `[:, ind::subpix]` out of the zoomed width `nx·sp − (sp − 1)` is `nx − 1` -/
+theorem shiftedCols_eq (nx ind sp : Int) (hs : 0 < sp) (h1 : 1 ≤ ind) (h2 : ind < sp) :
+    KernelsMcArr.shiftedCols nx ind sp = nx - 1 := by
+  unfold KernelsMcArr.shiftedCols KernelsMcArr.zoomedCols KernelsMcArr.shiftFirst KernelsMcArr.shiftStep
+  have e : nx * sp - (sp - 1) - ind + sp - 1 = (sp - ind) + (nx - 1) * sp := by ring
+  rw [e, Int.add_mul_ediv_right _ _ (ne_of_gt hs), Int.ediv_eq_zero_of_lt (by omega) (by omega)]
+  ring
+
+/-- **`shift_right_img` indexes the zoomed image as the model does**: the zoom is called on the selected band with factors
+    `(1, (nx·sp − (sp − 1)) / nx)` and `order=1` (what `zoom` computes stays the modelled primitive: linear interpolation at
+    `kk / sp`, `MC.zoomCol`); image number `i ≥ 1` of the list takes zoomed columns `i, i + sp, i + 2·sp, …`, `nx − 1` of them; number
+    0 is the image itself -/
+theorem shift_eq_model (R : Img) (sp i : Nat) (hs : 0 < sp) (hi1 : 1 ≤ i) (hi2 : i < sp) (hc : 1 ≤ R.cols) (r j : Int) :
+    KernelsMcArr.zoomOrder = 1
+    ∧ KernelsMcArr.zoomFactorRows (R.cols : Int) (sp : Int) = 1
+    ∧ KernelsMcArr.zoomedCols (R.cols : Int) (sp : Int) = ((R.cols : Int) - 1) * sp + 1
+    ∧ (shiftRight R sp i).px r j = zoomCol R sp r (KernelsMcArr.shiftedCol (i : Int) (sp : Int) j)
+    ∧ ((shiftRight R sp i).cols : Int) = KernelsMcArr.shiftedCols (R.cols : Int) (i : Int) (sp : Int)
+    ∧ shiftRight R sp 0 = R := by
+  have hi0 : ¬ (i = 0) := by omega
+  refine ⟨rfl, rfl, ?_, ?_, ?_, ?_⟩
+  · unfold KernelsMcArr.zoomedCols; ring
+  · unfold shiftRight KernelsMcArr.shiftedCol KernelsMcArr.shiftFirst KernelsMcArr.shiftStep
+    rw [if_neg hi0]
+  · rw [shiftedCols_eq _ _ _ (by exact_mod_cast hs) (by exact_mod_cast hi1) (by exact_mod_cast hi2)]
+    unfold shiftRight
+    rw [if_neg hi0]
+    simp only
+    omega
+  · unfold shiftRight; rw [if_pos rfl]
+
+/-- the last zoomed column is the last image column: positions `0, 1/sp, …, nx − 1` -/
+example : KernelsMcArr.zoomedCols 5 4 = 17 ∧ KernelsMcArr.shiftedCols 5 3 4 = 4 ∧ KernelsMcArr.shiftedCol 3 4 2 = 11 := by decide +kernel
+
 end Pandora.C02KernelsMcArr
